@@ -24,36 +24,32 @@ PROP = dict(
         "targets: Lit.genLit depth <= 3 over a 3-letter alphabet, integers -2..3, attribute names a,b,c,x; negative pairs "
         "are mutants of the target (leaf change, wrap/unwrap, regrouping of nested sets, offset shift, string<->bytes); "
         "superimposed sequences (KF-superimposed) are not constructed",
-        "values holding an item/entry tuple directly inside an item/entry tuple are classed KF-seed-threaded-hash "
-        "(ArrayItemTuple/DictEntryTuple.Hash thread the seed unfinished: differently nested tuples hash alike)",
         "byte-array-shaped sets with gaps are classed KF-bytes-holes (asBytes fills a gap with 0); every other case is "
         "classed good with all observables (=, {a}={b}, count, dict lookup, repr, <, >, operator context, enumerator "
         "denotation) - the classes KF-bytes-less, KF-less-inconsistent, KF-union-less-panic, KF-string-with-fallback and "
-        "KF-string-dup-member were dropped after the corresponding repairs were merged",
+        "KF-string-dup-member and KF-seed-threaded-hash were dropped after the corresponding repairs were merged",
     ],
-    level_text="Proof: Lean theorems about the representation model (one constructor per Go value type). wf_unique: two "
-               "canonical representations with the same denotation agree (constructor, scalar fields, children up to "
-               "denotation and enumeration/column order) - for ALL representations. On canonical forms of the proved fragment "
-               "- every constructor: numbers, generic/char/byte/item/entry tuples, strings, byte arrays, arrays, dictionaries "
-               "(incl. Dict.Equal against any set), relations, union sets, booleans, generic sets, nested arbitrarily; only "
-               "item/entry tuples as direct children of tuples/arrays/dicts/relation rows are excluded, and necessarily so: the full "
-               "statements are refuted there (hash_injective_full_false, equal_iff_den_full_false; KF-seed-threaded-hash) - Equal (every Equal "
-               "method transliterated, incl. the asymmetric GenericTuple/Dict ones and frozen's hash-trusting set "
-               "comparison) coincides with equality of denotations, is symmetric, the repaired Hash is injective up to "
-               "denotation under every seed (what frozen needs) and respects Equal, equal values collapse in a built set / "
-               "select the same dict entry. The modelled constructors NewOffsetString/Array, String/Array.Without, NewTuple "
-               "and +> return canonical forms of the intended denotation: general theorems by induction (unbounded); the "
-               "set builder bounded-exhaustive (kernel-evaluated). Witness theorems for the behaviour before each of the six "
-               "repairs. Tied to /repo by evaluating pairs of different construction paths for one denotation (and mutants "
-               "with a different one) and comparing =, {a}={b}, {a,b} count, dict lookup, repr, <, an operator context and the "
-               "enumerator-level denotation.",
+    level_text="Proof: Lean theorems about the representation model (one constructor per Go value type), all for ALL canonical "
+               "representations (numbers, generic/char/byte/item/entry tuples, strings, byte arrays, arrays, dictionaries, "
+               "relations, union sets, booleans, generic sets, nested arbitrarily): Equal - every Equal method "
+               "transliterated, incl. the asymmetric GenericTuple/Dict ones, Dict.Equal against any set and frozen's "
+               "hash-trusting set comparison - coincides with equality of denotations (equal_iff_den), is symmetric, the "
+               "repaired Hash is injective up to denotation under every seed (hash_injective, hash_seeded: what frozen "
+               "needs) and respects Equal (hash_contract), canonical forms are unique (wf_unique), equal values collapse in a "
+               "built set / select the same dict entry (collapse, no_collapse). The modelled constructors "
+               "NewOffsetString/Array, String/Array.Without, NewTuple and +> return canonical forms of the intended "
+               "denotation: general theorems by induction (unbounded); the set builder bounded-exhaustive "
+               "(kernel-evaluated). Witness theorems for the behaviour before each of the seven repairs. Tied to /repo by "
+               "evaluating pairs of different construction paths for one denotation (and mutants with a different one) and "
+               "comparing =, {a}={b}, {a,b} count, dict lookup, repr, <, an operator context and the enumerator-level "
+               "denotation.",
     design_ref="DESIGN.md section 6, C02",
     env={"HARNESS_TIMEOUT_MS": "20000"},
     watch=["rel.GenericTuple.Equal", "rel.GenericTuple.Hash", "rel.GenericTuple.Canonical", "rel.GenericTuple.With",
            "rel.GenericTuple.Map", "rel.TupleBuilder.Finish",
            "rel.NewTuple", "rel.specialTuple", "rel.maybeSpecialTuple", "rel.StringCharTuple.Equal", "rel.StringCharTuple.Hash",
            "rel.StringCharTuple.With", "rel.newCharTupleFromTuple",
-           "rel.BytesByteTuple.Equal", "rel.BytesByteTuple.Hash", "rel.ArrayItemTuple.Equal", "rel.ArrayItemTuple.Hash",
+           "rel.BytesByteTuple.Equal", "rel.BytesByteTuple.Hash", "rel.ArrayItemTuple.Equal", "rel.ArrayItemTuple.Hash", "rel.finishHash",
            "rel.DictEntryTuple.Equal", "rel.DictEntryTuple.Hash", "rel.EmptySet.Equal", "rel.TrueSet.Equal",
            "rel.GenericSet.Equal", "rel.GenericSet.Hash", "rel.newSetFromFrozenSet", "rel.CanonicalSet",
            "rel.String.Equal", "rel.String.EqualString", "rel.String.Hash", "rel.String.Without", "rel.String.trimHoles",
